@@ -36,16 +36,24 @@ C08_Failures(r) ==
   IF IsMalformed(segs) \/ r.map.version # 3 THEN {"map_does_not_decode"}
   ELSE
   LET full == SelectSeq(segs, LAMBDA g : "sl" \in DOMAIN g) IN
+  \* position -> token index (token starts are distinct)
+  LET oAt == [p \in {<<r.otoks[j].sl, r.otoks[j].sc>> : j \in 1..Len(r.otoks)} |->
+                CHOOSE j \in 1..Len(r.otoks) : <<r.otoks[j].sl, r.otoks[j].sc>> = p]
+      sAt == [p \in {<<stoks[j].sl, stoks[j].sc>> : j \in 1..Len(stoks)} |->
+                CHOOSE j \in 1..Len(stoks) : <<stoks[j].sl, stoks[j].sc>> = p]
+  IN
   (IF \A k \in 1..Len(full) :
-        \E o \in 1..Len(r.otoks) : \E s \in 1..Len(stoks) :
-           /\ r.otoks[o].sl = full[k].gl /\ r.otoks[o].sc = full[k].gc
-           /\ stoks[s].sl = full[k].sl /\ stoks[s].sc = full[k].sc
-           /\ SameLexeme(r.otoks[o], stoks[s])
+        /\ <<full[k].gl, full[k].gc>> \in DOMAIN oAt
+        /\ <<full[k].sl, full[k].sc>> \in DOMAIN sAt
+        /\ SameLexeme(r.otoks[oAt[<<full[k].gl, full[k].gc>>]], stoks[sAt[<<full[k].sl, full[k].sc>>]])
    THEN {} ELSE {"segment_does_not_link_identical_lexemes"})
-  \cup (IF \A o \in 1..Len(r.otoks) : r.otoks[o].ty = "IDENT" =>
-             \E k \in 1..Len(full) : /\ full[k].gl = r.otoks[o].sl /\ full[k].gc = r.otoks[o].sc /\ full[k].named
-                                     /\ full[k].ni + 1 \in 1..Len(r.map.names) /\ r.map.names[full[k].ni + 1] = r.otoks[o].name
-        THEN {} ELSE {"identifier_without_named_segment"})
+  \cup (LET namedAt == [p \in {<<full[k].gl, full[k].gc>> : k \in {x \in 1..Len(full) : full[x].named}} |->
+                            {full[k].ni : k \in {x \in 1..Len(full) : full[x].named /\ <<full[x].gl, full[x].gc>> = p}}]
+        IN IF \A o \in 1..Len(r.otoks) : r.otoks[o].ty = "IDENT" =>
+                /\ <<r.otoks[o].sl, r.otoks[o].sc>> \in DOMAIN namedAt
+                /\ \E ni \in namedAt[<<r.otoks[o].sl, r.otoks[o].sc>>] :
+                      ni + 1 \in 1..Len(r.map.names) /\ r.map.names[ni + 1] = r.otoks[o].name
+           THEN {} ELSE {"identifier_without_named_segment"})
   \cup (IF \A k \in 1..(Len(segs) - 1) : PosLE(segs[k].gl, segs[k].gc, segs[k + 1].gl, segs[k + 1].gc)
         THEN {} ELSE {"segments_not_ordered"})
   \cup (IF \A k \in 1..Len(full) : full[k].src = 0 THEN {} ELSE {"source_index"})
